@@ -361,4 +361,208 @@ Proof.
     [apply frame_mark; left; reflexivity | eapply frame_trans; [apply frame_mark; left; reflexivity | apply frame_info; reflexivity]].
 Qed.
 
+
+(* try *)
+Lemma cok_handler cp hbp prev g Kh x :
+  cokl g (SL Kh) Kh -> ~ In hbp Kh -> ~ In cp (hbp :: Kh) -> fresh x (hbp :: Kh) ->
+  claims (snd (try_handlerG fx cp hbp prev g x)) (fst (try_handlerG fx cp hbp prev g x)) (SK (hbp :: Kh) hbp).
+Proof.
+  intros H Hh Hcp Hf. unfold try_handlerG.
+  set (xa := set_mt (if s_mt (sc x) then set_end x prev else x) false).
+  assert (Ixa : info xa = info x) by (unfold xa; destruct (s_mt (sc x)); reflexivity).
+  assert (Hs : forall k, SK (hbp :: Kh) hbp k -> k <> cp) by (intros k [Hk _] ->; exact (Hcp Hk)).
+  pose proof (cok_with_child KCatch cp _ _ _ xa (cok_block_end hbp g Kh H Hh) (fresh_info _ _ _ Ixa Hf) Hs) as HC.
+  destruct (with_childG fx KCatch cp (fun a => block_endG hbp (g a)) xa) as [[xb r] lg]. cbn [g_st g_lg fst snd] in *.
+  destruct (s_mt (sc x)); (eapply claims_info; [exact HC|]); [apply info_tcm | reflexivity].
+Qed.
+
+Lemma cok_finalizer fp prev g Kf x :
+  cokl g (SL Kf) Kf -> ~ In fp Kf -> fresh x (fp :: Kf) ->
+  claims (snd (try_finalizerG fx fp prev g x)) (fst (try_finalizerG fx fp prev g x)) (SK (fp :: Kf) fp).
+Proof.
+  intros H Hfp Hf. unfold try_finalizerG.
+  pose proof (cok_with_child KFinally fp _ _ _ (set_end x prev) (cok_block_end fp g Kf H Hfp) (fresh_info _ _ _ eq_refl Hf)
+                (fun k Hk => proj2 Hk)) as HC.
+  destruct (with_childG fx KFinally fp (fun a => block_endG fp (g a)) (set_end x prev)) as [[xb r] lg]. cbn [g_st g_lg fst snd] in *.
+  eapply claims_info; [exact HC | apply info_tfm].
+Qed.
+
+Lemma cok_try p bp mb gb Kb h mh gh Kh f mf gf Kf :
+  cokl gb (SL Kb) Kb -> sim_l Kb mb gb ->
+  (h <> None -> cokl gh (SL Kh) Kh /\ sim_l Kh mh gh) ->
+  (f <> None -> cokl gf (SL Kf) Kf /\ sim_l Kf mf gf) ->
+  NoDup (p :: bp :: Kb ++ try_hkeys h Kh ++ try_fkeys f Kf) ->
+  cokc (visit_tryG fx p bp gb h gh f gf) (SK (p :: bp :: Kb ++ try_hkeys h Kh ++ try_fkeys f Kf) p)
+       (p :: bp :: Kb ++ try_hkeys h Kh ++ try_fkeys f Kf).
+Proof.
+  intros Hb Sb Hh Hff Hn x Hf. unfold visit_tryG.
+  set (KK := p :: bp :: Kb ++ try_hkeys h Kh ++ try_fkeys f Kf) in *.
+  assert (Hn0 := Hn).
+  apply NoDup_cons_inv in Hn. destruct Hn as [Hp Hn]. apply NoDup_cons_inv in Hn. destruct Hn as [Hbp Hn].
+  apply NoDup_app_inv in Hn. destruct Hn as [_ [Hn D1]]. apply NoDup_app_inv in Hn. destruct Hn as [Nh [Nf D2]].
+  assert (I1 : incl (bp :: Kb) KK) by (unfold KK; apply incl_tl; intros k [<-|Hk]; [left; reflexivity | right; apply in_or_app; left; exact Hk]).
+  assert (I2 : incl (try_hkeys h Kh) KK) by (unfold KK; apply incl_tl, incl_tl, incl_appr, incl_appl, incl_refl).
+  assert (I3 : incl (try_fkeys f Kf) KK) by (unfold KK; apply incl_tl, incl_tl, incl_appr, incl_appr, incl_refl).
+  assert (Hbp' : ~ In bp Kb) by (intros Hk; apply Hbp, in_or_app; left; exact Hk).
+  (* block *)
+  assert (Hf0 : fresh (set_mt x false) (bp :: Kb)) by (eapply fresh_info; [reflexivity|]; eapply fresh_incl; [exact Hf | exact I1]).
+  pose proof (cok_block_end bp gb Kb Hb Hbp' _ Hf0) as C1.
+  destruct (sim_block_end bp mb gb Kb Sb _ Hf0) as [_ [_ F1]].
+  destruct (block_endG bp (gb (set_mt x false))) as [[x1 r1] lg1]. cbn [g_st g_lg fst snd] in *.
+  assert (Fx1 : frame x x1 (bp :: Kb)) by (eapply frame_trans; [apply (frame_info x (set_mt x false)); reflexivity | exact F1]).
+  (* handler *)
+  assert (H2 : exists x2 lg2, (match h with Some (cp, hbp) => try_handlerG fx cp hbp (s_end (sc x)) gh x1 | None => (x1, []) end) = (x2, lg2) /\
+              frame x1 x2 (try_hkeys h Kh) /\ claims lg2 x2 (SK (try_hkeys h Kh) p)).
+  { destruct h as [[cp hbp]|].
+    - destruct (Hh ltac:(discriminate)) as [Ch Sh]. cbn [try_hkeys] in *.
+      apply NoDup_cons_inv in Nh. destruct Nh as [Ncp Nh]. apply NoDup_cons_inv in Nh. destruct Nh as [Nhbp _].
+      assert (Hfh : fresh x1 (hbp :: Kh)).
+      { eapply fresh_frame; [|exact Fx1|].
+        - eapply fresh_incl; [exact Hf|]. eapply incl_tran; [|exact I2]. apply incl_tl, incl_refl.
+        - intros k Hk Hk'. destruct Hk' as [<-|Hk']; [apply Hbp; apply in_or_app; right; apply in_or_app; left; right; exact Hk|].
+          apply (D1 k Hk'). apply in_or_app. left. right. exact Hk. }
+      destruct (sim_handler fx cp hbp (s_end (sc x)) mh gh Kh x1 Sh Hfh) as [_ Fh].
+      pose proof (cok_handler cp hbp (s_end (sc x)) gh Kh x1 Ch Nhbp Ncp Hfh) as CH.
+      destruct (try_handlerG fx cp hbp (s_end (sc x)) gh x1) as [x2 lg2]. exists x2, lg2. cbn [fst snd] in *.
+      dsplit; [reflexivity | exact Fh|].
+      eapply claims_weak; [exact CH|]. apply SK_up; [apply incl_tl, incl_refl|].
+      intros Hk. apply Hp. right. apply in_or_app. right. apply in_or_app. left. right. exact Hk.
+    - exists x1, []. dsplit; [reflexivity | apply frame_refl | apply claims_nil]. }
+  destruct H2 as [x2 [lg2 [G2 [F2 C2]]]]. rewrite G2.
+  (* finalizer *)
+  assert (H3 : exists x3 lg3, (match f with Some fp => try_finalizerG fx fp (s_end (sc x)) gf x2 | None => (x2, []) end) = (x3, lg3) /\
+              frame x2 x3 (try_fkeys f Kf) /\ claims lg3 x3 (SK KK p)).
+  { destruct f as [fp|].
+    - destruct (Hff ltac:(discriminate)) as [Cf Sf]. cbn [try_fkeys] in *.
+      apply NoDup_cons_inv in Nf. destruct Nf as [Nfp _].
+      assert (Hff' : fresh x2 (fp :: Kf)).
+      { eapply fresh_frame; [|exact F2|].
+        + eapply fresh_frame; [|exact Fx1|].
+          * eapply fresh_incl; [exact Hf | exact I3].
+          * intros k Hk Hk'. destruct Hk' as [<-|Hk']; [apply Hbp; apply in_or_app; right; apply in_or_app; right; exact Hk|].
+            apply (D1 k Hk'). apply in_or_app. right. exact Hk.
+        + intros k Hk Hk'. exact (D2 k Hk' Hk). }
+      destruct (sim_finalizer fx fp (s_end (sc x)) mf gf Kf x2 Sf Hff') as [_ Ff].
+      pose proof (cok_finalizer fp (s_end (sc x)) gf Kf x2 Cf Nfp Hff') as CF.
+      destruct (try_finalizerG fx fp (s_end (sc x)) gf x2) as [x3 lg3]. exists x3, lg3. cbn [fst snd] in *.
+      dsplit; [reflexivity | exact Ff|].
+      eapply claims_weak; [exact CF|]. apply SK_up; [exact I3|].
+      intros Hk. apply Hp. right. apply in_or_app. right. apply in_or_app. right. exact Hk.
+    - exists x2, []. dsplit; [reflexivity | apply frame_refl | apply claims_nil]. }
+  destruct H3 as [x3 [lg3 [G3 [F3 C3]]]]. rewrite G3. cbn [g_st g_lg fst snd].
+  assert (Ft : frame x3 (try_finish p (s_mt (sc x)) x3) [p]).
+  { unfold try_finish. destruct (s_end (sc x3)); [eapply frame_trans; [apply frame_mark; left; reflexivity | apply frame_info; reflexivity] | apply frame_info; reflexivity]. }
+  assert (Hin_b : forall k, SK (bp :: Kb) bp k -> In k Kb).
+  { intros k [[E|Hk] Hne]; [exfalso; apply Hne; symmetry; exact E | exact Hk]. }
+  apply claims_app; [|apply claims_app].
+  - eapply claims_frame; [|exact Ft | apply SK_not_p].
+    eapply claims_weak; [|apply (SK_up (bp :: Kb) bp); [exact I1|]].
+    + eapply claims_frame; [eapply claims_frame; [exact C1 | exact F2|] | exact F3|].
+      * intros k Hk Hk'. apply (D1 k (Hin_b k Hk)). apply in_or_app. left. exact Hk'.
+      * intros k Hk Hk'. apply (D1 k (Hin_b k Hk)). apply in_or_app. right. exact Hk'.
+    + intros [<-|Hk]; apply Hp; [left; reflexivity | right; apply in_or_app; left; exact Hk].
+  - eapply claims_frame; [|exact Ft | apply SK_not_p].
+    eapply claims_weak; [eapply claims_frame; [exact C2 | exact F3 | intros k [Hk _]; exact (D2 k Hk)]|].
+    intros k [Hk Hne]. split; [apply I2; exact Hk | exact Hne].
+  - eapply claims_frame; [exact C3 | exact Ft | apply SK_not_p].
+Qed.
+
+
+(* the induction for part B *)
+Lemma cokc_ext g g' S K : (forall x, g x = g' x) -> cokc g' S K -> cokc g S K.
+Proof. intros E H x Hf. rewrite E. apply H. exact Hf. Qed.
+Lemma cokl_ext g g' S K : (forall x, g x = g' x) -> cokl g' S K -> cokl g S K.
+Proof. intros E H x Hf. rewrite E. apply H. exact Hf. Qed.
+Lemma cokcs_ext g g' S K : (forall x, g x = g' x) -> cokcs g' S K -> cokcs g S K.
+Proof. intros E H x Hf. rewrite E. apply H. exact Hf. Qed.
+
+Definition cokS (s : stmt) : Prop := NoDup (keys s) -> cokc (anG fx s) (SK (keys s) (pos s)) (keys s).
+Definition cokL (l : stmts) : Prop := NoDup (keys_l l) -> cokl (anG_list fx l) (SL (keys_l l)) (keys_l l).
+Definition cokC (cs : cases) : Prop := NoDup (keys_c cs) -> cokcs (anG_cases fx cs) (SL (keys_c cs)) (keys_c cs).
+
+Lemma frc_stmt s : NoDup (keys s) -> frc (anG fx s) (keys s).
+Proof. intros Hn x Hf. destruct (an_anG fx) as [HS _]. apply (HS s Hn x Hf). Qed.
+Lemma frc_orb s : NoDup (keys s) -> frc (fun a => orbG s (anG fx s a)) (keys s).
+Proof. intros Hn x Hf. destruct (an_anG fx) as [HS _]. apply (simS_orb fx s (HS s) Hn x Hf). Qed.
+Lemma frl_list l : NoDup (keys_l l) -> frl (anG_list fx l) (keys_l l).
+Proof. intros Hn x Hf. destruct (an_anG fx) as [_ [HL _]]. apply (HL l Hn x Hf). Qed.
+Lemma frcs_cases cs : NoDup (keys_c cs) -> frcs (anG_cases fx cs) (keys_c cs).
+Proof. intros Hn x Hf. destruct (an_anG fx) as [_ [_ HC]]. apply (HC cs Hn x Hf). Qed.
+Lemma frc_case cp b : NoDup (keys_l b) -> frc (visit_caseG fx cp b (anG_list fx b)) (cp :: keys_l b).
+Proof. intros Hn x Hf. destruct (an_anG fx) as [_ [HL _]]. apply (sim_case fx cp b _ _ _ (HL b Hn) x Hf). Qed.
+
+Lemma cokS_orb s : cokS s -> NoDup (keys s) -> cokc (fun a => orbG s (anG fx s a)) (SK (keys s) (pos s)) (keys s).
+Proof. intros H Hn. apply cok_orb. apply H. exact Hn. Qed.
+
+Ltac wrapc s V := eapply cokc_ext; [intros x; reflexivity|]; apply (cok_wrap s V).
+Ltac leafc s V := wrapc s V; intros x _; apply claims_nil.
+
+Theorem case_flags_stable : (forall s, cokS s) /\ (forall l, cokL l) /\ (forall cs, cokC cs).
+Proof.
+  apply stmt_mutind.
+  - intros p e Hn. leafc (SExpr p e) (fun x => (visit_e e x, @None End, @nil gent)).
+  - intros p Hn. leafc (SEmpty p) (fun x : st => (x, @None End, @nil gent)).
+  - intros p v i Hn. leafc (SVar p v i) (fun x => (match i with Some e => visit_e e x | None => x end, @None End, @nil gent)).
+  - intros p n pb b IHb Hn. cbn [keys] in Hn. destruct (NoDup_cons_inv _ _ Hn) as [Hp Hn']. destruct (NoDup_cons_inv _ _ Hn') as [Hpb Hnb].
+    wrapc (SFnDecl p n pb b) (fn_likeG fx p pb (anG_list fx b)). apply cok_fn; [apply IHb; exact Hnb | exact Hp | exact Hpb].
+  - intros p pb b IHb Hn. cbn [keys] in Hn. destruct (NoDup_cons_inv _ _ Hn) as [Hp Hn']. destruct (NoDup_cons_inv _ _ Hn') as [Hpb Hnb].
+    wrapc (SArrowStmt p pb b) (fun x => let '(y, r, lg) := fn_likeG fx p pb (anG_list fx b) x in (visit_lit y, r, lg)).
+    apply cok_arrow; [apply IHb; exact Hnb | exact Hp | exact Hpb].
+  - intros p a Hn. leafc (SRet p a) (fun x => let '(y, r) := visit_returnG p a x in (y, r, @nil gent)).
+  - intros p e Hn. leafc (SThrow p e) (fun x => let '(y, r) := visit_throwG fx p e x in (y, r, @nil gent)).
+  - intros p l Hn. leafc (SBrk p l) (fun x => (visit_break fx l x, @None End, @nil gent)).
+  - intros p l Hn. leafc (SCont p l) (fun x => (set_fc x true, @None End, @nil gent)).
+  - intros p b IHb Hn. cbn [keys] in Hn. destruct (NoDup_cons_inv _ _ Hn) as [Hp Hnb].
+    wrapc (SBlock p b) (fun a => block_endG p (anG_list fx b a)). apply cok_block_end; [apply IHb; exact Hnb | exact Hp].
+  - intros p c a IHa Hn. cbn [keys] in Hn. destruct (NoDup_cons_inv _ _ Hn) as [Hp Hna].
+    wrapc (SIf p c a) (visit_ifG fx p c (pos a) (fun y => orbG a (anG fx a y))). apply cok_if; [apply cokS_orb; assumption | exact Hp].
+  - intros p c a IHa b IHb Hn. cbn [keys] in Hn. destruct (NoDup_cons_inv _ _ Hn) as [Hp Hn']. destruct (NoDup_app_inv _ _ Hn') as [Hna [Hnb Hd]].
+    wrapc (SIfElse p c a b) (visit_if_elseG fx p c (pos a) (fun y => orbG a (anG fx a y)) (pos b) (fun y => orbG b (anG fx b y))).
+    apply cok_if_else; [apply cokS_orb; assumption | apply cokS_orb; assumption | apply frc_orb; exact Hna | apply frc_orb; exact Hnb | exact Hp | exact Hd].
+  - intros p c b IHb Hn. cbn [keys] in Hn. destruct (NoDup_cons_inv _ _ Hn) as [Hp Hnb].
+    wrapc (SWhile p c b) (visit_whileG fx c (pos b) (anG fx b)). apply cok_while; [apply IHb; exact Hnb | apply pos_in_keys | exact Hp].
+  - intros p b IHb c Hn. cbn [keys] in Hn. destruct (NoDup_cons_inv _ _ Hn) as [Hp Hnb].
+    wrapc (SDoWhile p b c) (visit_do_whileG fx p c (pos b) (anG fx b)). apply cok_do_while; [apply IHb; exact Hnb | apply pos_in_keys | exact Hp].
+  - intros p c b IHb Hn. cbn [keys] in Hn. destruct (NoDup_cons_inv _ _ Hn) as [Hp Hnb].
+    wrapc (SFor p c b) (visit_forG fx p c (pos b) (anG fx b)). apply cok_for; [apply IHb; exact Hnb | apply pos_in_keys | exact Hp].
+  - intros p b IHb Hn. cbn [keys] in Hn. destruct (NoDup_cons_inv _ _ Hn) as [Hp Hnb].
+    wrapc (SForIn p b) (visit_for_inG fx (pos b) (anG fx b)). apply cok_for_in; [apply IHb; exact Hnb | apply pos_in_keys | exact Hp].
+  - intros p b IHb Hn. cbn [keys] in Hn. destruct (NoDup_cons_inv _ _ Hn) as [Hp Hnb].
+    wrapc (SForOf p b) (visit_for_inG fx (pos b) (anG fx b)). apply cok_for_in; [apply IHb; exact Hnb | apply pos_in_keys | exact Hp].
+  - intros p cs IHc Hn. cbn [keys] in Hn. destruct (NoDup_cons_inv _ _ Hn) as [Hp Hnc].
+    wrapc (SSwitch p cs) (visit_switchG p cs (anG_cases fx cs)). apply cok_switch; [apply IHc; exact Hnc | exact Hp].
+  - intros p l b IHb Hn. cbn [keys] in Hn. destruct (NoDup_cons_inv _ _ Hn) as [Hp Hnb].
+    wrapc (SLabel p l b) (fun x => let '(y, _, lg) := with_childG fx (KLabel l) p (fun a => orbG b (anG fx b a)) x in (y, @None End, lg)).
+    apply (cok_label p l _ _ (pos b)); [apply cokS_orb; assumption | exact Hp].
+  - intros p bp blk IHb h hb IHh f fb IHf Hn.
+    assert (Hk : keys (STry p bp blk h hb f fb) = p :: bp :: keys_l blk ++ try_hkeys h (keys_l hb) ++ try_fkeys f (keys_l fb)).
+    { cbn [keys]. destruct h as [[cp hbp]|], f; reflexivity. }
+    unfold cokS in *. rewrite Hk in Hn |- *. assert (Hn0 := Hn).
+    apply NoDup_cons_inv in Hn. destruct Hn as [_ Hn]. apply NoDup_cons_inv in Hn. destruct Hn as [_ Hn].
+    apply NoDup_app_inv in Hn. destruct Hn as [Nb [Hn _]]. apply NoDup_app_inv in Hn. destruct Hn as [Nh [Nf _]].
+    destruct (an_anG fx) as [_ [HL _]].
+    wrapc (STry p bp blk h hb f fb) (visit_tryG fx p bp (anG_list fx blk) h (anG_list fx hb) f (anG_list fx fb)).
+    apply (cok_try p bp (an_list fx blk) _ _ h (an_list fx hb) _ _ f (an_list fx fb) _ _ (IHb Nb) (HL blk Nb)); [| | exact Hn0].
+    + intros Hh. assert (Nhb : NoDup (keys_l hb)).
+      { destruct h as [[cp hbp]|]; [|contradiction]. cbn [try_hkeys] in Nh. apply NoDup_cons_inv in Nh. destruct Nh as [_ Nh]. apply NoDup_cons_inv in Nh. apply Nh. }
+      split; [apply IHh; exact Nhb | apply HL; exact Nhb].
+    + intros Hf'. assert (Nfb : NoDup (keys_l fb)).
+      { destruct f as [fp|]; [|contradiction]. cbn [try_fkeys] in Nf. apply NoDup_cons_inv in Nf. apply Nf. }
+      split; [apply IHf; exact Nfb | apply HL; exact Nfb].
+  - intros _. apply cok_nil.
+  - intros s IHs r IHr Hn. cbn [keys_l] in Hn. destruct (NoDup_app_inv _ _ Hn) as [Hns [Hnr Hd]].
+    eapply cokl_ext; [intros x; apply anG_list_cons|]. cbn [keys_l].
+    apply (cok_cons s _ _ _ _ (pos s)); [apply cokS_orb; assumption | apply IHr; exact Hnr | apply frc_orb; exact Hns | apply frl_list; exact Hnr | exact Hd].
+  - intros _. apply cok_nilC.
+  - intros cp d ft b IHb r IHr Hn. cbn [keys_c] in Hn. destruct (NoDup_cons_inv _ _ Hn) as [Hp Hn']. destruct (NoDup_app_inv _ _ Hn') as [Hnb [Hnr Hd]].
+    eapply cokcs_ext; [intros x; apply anG_cases_cons|].
+    unfold cokC in *. cbn [keys_c]. change (cp :: keys_l b ++ keys_c r) with ((cp :: keys_l b) ++ keys_c r).
+    apply (cok_consC _ _ _ _ cp).
+    + apply cok_case; [exact Hnb | apply IHb; exact Hnb | intros Hk; apply Hp, in_or_app; left; exact Hk].
+    + apply IHr. exact Hnr.
+    + apply frc_case. exact Hnb.
+    + apply frcs_cases. exact Hnr.
+    + intros k [<-|Hk] Hk'; [apply Hp, in_or_app; right; exact Hk' | exact (Hd k Hk Hk')].
+Qed.
+
 End Cases.
